@@ -105,7 +105,9 @@ struct MapStream : Family {
 		Line m = mkline("world", "map");
 		uint64_t lgw = r.chance(1, 2) ? r.range(5, thorough ? 10 : 8) : r.below(thorough ? 11 : 8);
 		uint64_t h = r.chance(1, 6) ? 0 : r.below(thorough ? 65 : 20);
-		while ((h << lgw) > (thorough ? 70000u : 9000u)) h /= 2;
+		bool bigMap = r.chance(1, thorough ? 20 : 120);
+		if (bigMap) { lgw = r.range(7, 9); h = (40000u >> lgw) + r.below(60); } // tile block above the 128 KiB stream-copy chunk
+		while ((h << lgw) > (thorough || bigMap ? 70000u : 9000u)) h /= 2;
 		static const int64_t SG[] = {0, 0, 1, 2, -1, 256, 0x7fffffff};
 		m.set("seed", hex64(r.next())).set("lgw", lgw).set("h", h).set("nsrc", r.chance(1, 4) ? 0 : r.below(7)).set("nmap", r.chance(1, 4) ? 0 : r.below(21)).set("nter", r.chance(1, 3) ? 0 : r.below(thorough ? 20 : 5))
 		 .set("ngroups", r.chance(1, 3) ? 0 : r.below(8)).set("saved", std::to_string(SG[r.below(7)])).set("tag", r.chance(1, 2) ? 0x1011 : r.chance(1, 2) ? 0x1010 : 0x1010 + r.below(0xfffff000u)).set("trailing", r.chance(1, 2) ? 0 : r.below(30)).set("wrapgroups", r.chance(1, 6) ? 1 : 0);
